@@ -18,19 +18,20 @@ const (
 	cstNewMapIter     = "NewMapIter"
 	cstNewChanIter    = "NewChanIter"
 
-	cstSeq      = "Seq"
-	cstStart    = "Start"
-	cstNormal   = "Normal"
-	cstReturn   = "Return"
-	cstBreak    = "Break"
-	cstContinue = "Continue"
-	cstDelay    = "Delay"
-	cstBind     = "Bind"
-	cstCombine  = "Combine"
-	cstFor      = "For"
-	cstForPost  = "ForPost"
-	cstLoop     = "Loop"
-	cstWhile    = "While"
+	cstSeq       = "Seq"
+	cstStart     = "Start"
+	cstNormal    = "Normal"
+	cstReturn    = "Return"
+	cstBreak     = "Break"
+	cstContinue  = "Continue"
+	cstDelay     = "Delay"
+	cstBind      = "Bind"
+	cstCombine   = "Combine"
+	cstFor       = "For"
+	cstForPost   = "ForPost"
+	cstBreakable = "Breakable"
+	cstLoop      = "Loop"
+	cstWhile     = "While"
 )
 
 const (
